@@ -1,5 +1,6 @@
 import Driver.Proto
 import PqModel.Codec
+import PqModel.Lz4Encode
 import PqModel.Spec.BlockCodecs
 import PqModel.Spec.Inflate
 
@@ -110,8 +111,32 @@ def inflateOp (x : String) (f : List UInt8 → Except PqModel.Spec.Inflate.Err (
     | .ok out => s!"ok {toHex out}"
     | .error e => s!"err {showInflateErr e}"
 
+/-- instrumentation only (not part of the spec): the BTYPE of every block the spec reader walks
+through, for the coverage histogram of the check -/
+def blockTypes : Nat → PqModel.Spec.Inflate.BitReader → Array UInt8 → List Nat → List Nat
+  | 0, _, _, acc => acc.reverse
+  | fuel + 1, r, out, acc =>
+    match PqModel.Spec.Inflate.readBit r with
+    | .error _ => acc.reverse
+    | .ok (final, r1) =>
+      match PqModel.Spec.Inflate.readBits 2 r1 with
+      | .error _ => acc.reverse
+      | .ok (t, r2) =>
+        match PqModel.Spec.Inflate.block t r2 out with
+        | .error _ => (t :: acc).reverse
+        | .ok (r3, out3) => if final then (t :: acc).reverse else blockTypes fuel r3 out3 (t :: acc)
+
 def handle (toks : List String) : Option String :=
   match toks with
+  /- `inflate.btypes <gzip member without optional header fields>`: block types met -/
+  | ["inflate.btypes", x] => some <|
+    match parseHex? x with
+    | none => "bad-op"
+    | some b =>
+      match b with
+      | _ :: _ :: _ :: flg :: _ :: _ :: _ :: _ :: _ :: _ :: d =>
+        if flg != 0 then "ok -" else s!"ok {showList toString (blockTypes (8 * d.length + 1) ⟨[], d⟩ #[] [])}"
+      | _ => "ok -"
   /- spec readers of PqModel/Spec/Inflate.lean (RFC 1951 / RFC 1952) and the stored-block
      reference encoder -/
   | ["gzip.decode", x] => some <| inflateOp x PqModel.Spec.Inflate.gunzip
@@ -142,6 +167,12 @@ def handle (toks : List String) : Option String :=
       | some (none, len) => s!"ok err {len}"
       | none => "ok none"
     | _, _, _, _ => "bad-op"
+  /- `codec.lz4encbuf <cap(dst)> <len(src)>`: compress/lz4/lz4.go Encode, length of the buffer
+     handed to CompressBlock = capacity of the slice Encode returns -/
+  | ["codec.lz4encbuf", dc, sl] => some <|
+    match parseNat? dc, parseNat? sl with
+    | some dc, some sl => s!"ok {(lz4Encode ⟨fun _ _ => none⟩ dc (List.replicate sl 0)).2}"
+    | _, _ => "bad-op"
   /- spec block decoders / reference encoders of PqModel/Spec/BlockCodecs.lean -/
   | ["codec.snappydec", x] => some <| blockOp x PqModel.Spec.BlockCodecs.snappyDec
   | ["codec.lz4dec", x] => some <| blockOp x PqModel.Spec.BlockCodecs.lz4Dec
